@@ -68,3 +68,32 @@ func (v *VerifMultiAck) Released() int {
 	defer v.m.mu.Unlock()
 	return v.m.released
 }
+
+// VerifBatchSlot is the state of one slot of a Batch, for the conformance harness.
+type VerifBatchSlot struct {
+	Record   opencdc.Record
+	Flag     RecordFlag
+	HasError bool
+	Position opencdc.Position // nil for the tail pieces of a split record
+	InRun    bool             // the slot belongs to a split run
+}
+
+// VerifBatchView exposes every slot of b (filtered ones included) plus its counters.
+func VerifBatchView(b *Batch) (slots []VerifBatchSlot, filterCount int, tainted bool) {
+	slots = make([]VerifBatchSlot, len(b.records))
+	for i := range b.records {
+		slots[i] = VerifBatchSlot{Record: b.records[i], Flag: b.recordStatuses[i].Flag,
+			HasError: b.recordStatuses[i].Error != nil, Position: b.positions[i],
+			InRun: b.runs != nil && b.runs[i] != nil}
+	}
+	return slots, b.filterCount, b.tainted
+}
+
+// VerifBatchSub is Batch.sub.
+func VerifBatchSub(b *Batch, from, to int) *Batch { return b.sub(from, to) }
+
+// VerifBatchClone is Batch.clone.
+func VerifBatchClone(b *Batch) *Batch { return b.clone() }
+
+// VerifBatchOriginal is Batch.originalBatch.
+func VerifBatchOriginal(b *Batch) *Batch { return b.originalBatch() }
